@@ -709,7 +709,14 @@ class Bf3File:
                     raise Bf3FileFormatError(
                         "TagType 0x{:02X} is not recognized by ConfigEditor"
                         .format(fwtagtype))
-                start_new_tag = fwtagtype in BF2_TAGTYPE_MAP and bf2_fwdata
+                # an ignored tag (prepare / activate) has no continuation pages: whatever follows it begins a new tag
+                after_ignored_tag = (
+                    bool(bf2_fwdata)
+                    and BF2_TAGTYPE_MAP.get(bf2_fwdata[0].fwtagtype, (0,))[0] is None
+                )
+                start_new_tag = bf2_fwdata and (
+                    fwtagtype in BF2_TAGTYPE_MAP or after_ignored_tag
+                )
                 if start_new_tag:
                     emit_bf3comp()
                     bf2_fwdata = []
